@@ -247,10 +247,15 @@ def judge(case, obs, res):
     return "ok"
 
 
+def parent_of(rel):
+    return rel.rsplit("/", 1)[0] if "/" in rel else "."
+
+
 def path_args(rng, t):
-    k = rng.randrange(7)
+    k = rng.randrange(11)
     subs = t.dirs[1:]
     overlap = False
+    singles = t.files + t.links     # explicit file / symlink arguments
     if k == 0 or not subs:
         args = ["."]
     elif k == 1:
@@ -269,8 +274,21 @@ def path_args(rng, t):
     elif k == 5:
         d = rng.choice(subs)
         args = ["./" + d + "/../" + d.rsplit("/", 1)[-1]]
-    else:
+    elif k == 6:
         args = [rng.choice(t.files)] if t.files else ["."]
+    elif k in (7, 8) and singles:
+        # explicitly named files / links together with the directory that contains them, in either order
+        picks = rng.sample(singles, min(len(singles), rng.choice([1, 2, 3])))
+        par = parent_of(picks[0])
+        args = picks + [par] if k == 7 else [par] + picks
+        overlap = True
+    elif k == 9 and singles:
+        picks = rng.sample(singles, min(len(singles), rng.choice([2, 3])))
+        args = picks + [rng.choice(t.dirs)] + picks[:1]
+        overlap = True
+    else:
+        args = [rng.choice(t.dirs), "."]
+        overlap = True
     return args, overlap
 
 
